@@ -290,12 +290,12 @@ func verifShaped(v string) bool {
 //verif:stub (time.Time).Zone verifStubZone
 //verif:stub strconv.ParseFloat verifStubParseFloat
 //verif:reach error-counted timestamp-set
-//verif:unwind 120
+//verif:unwind 160
 func VerifC13_Total() {
 	verifDate = verifDateRec{}
 	max := 26
 	if sym.Tier() > 0 {
-		max = 96
+		max = 128
 	}
 	v := sym.String("time", 0, max)
 	cnt := &verifCounter{}
@@ -331,7 +331,7 @@ func VerifC13_Total() {
 //verif:stub (time.Time).Zone verifStubZone
 //verif:stub strconv.ParseFloat verifStubParseFloat
 //verif:reach error-counted timestamp-set
-//verif:unwind 120
+//verif:unwind 160
 func VerifC07_ParseTimeAnyBytes() { VerifC13_Total() }
 
 // VerifC13_EveryErrorCounted: two malformed timestamps through the same
